@@ -96,6 +96,27 @@ Definition pair_wfb (G H : hostg) : bool :=
 (** no explicit hydrogen atom at all (every mode-I reaction of the corpora) *)
 Definition no_explicit_H (G : hostg) : bool := forallb (fun p => negb (N.eqb (a_el (snd p)) EL_H)) (gnodes G).
 
+(** ** "the prepared rule describes the pair (A, B)", as a boolean (evaluated by [run_c04] on every case with
+    A = substrate, B = the other side with implicit hydrogens, and the rule the reactor built -- in BOTH hydrogen modes):
+    every rule atom is an atom of A and B with their elements and charges, demands no more hydrogens than A has and
+    changes the count by the difference between B and A; every rule bond joins rule atoms and has A's and B's orders;
+    every bond whose order differs between A and B is a rule bond; every atom on which A and B differ is a rule atom *)
+Definition node_fitb (a : inode) (x y : nattr) : bool :=
+  N.eqb (a_el (iG a)) (a_el x) && N.eqb (a_el (iH a)) (a_el y) && Z.eqb (a_ch (iG a)) (a_ch x) && Z.eqb (a_ch (iH a)) (a_ch y)
+  && (a_hc (iG a) <=? a_hc x) && Z.eqb (a_hc (iG a) - a_hc (iH a)) (a_hc x - a_hc y).
+Definition has_adj (t : its) (u v : N) : bool := match adj t u v with Some _ => true | None => false end.
+Definition same3 (x y : nattr) : bool := N.eqb (a_el x) (a_el y) && Z.eqb (a_hc x) (a_hc y) && Z.eqb (a_ch x) (a_ch y).
+Definition describesb (A B : hostg) (t : its) : bool :=
+  wf_rcb t
+  && forallb (fun p => match label A (fst p), label B (fst p) with
+                       | Some x, Some y => node_fitb (snd p) x y | _, _ => false end) (gnodes t)
+  && forallb (fun e => let '(u, v, x) := e in
+                       mem u (node_ids t) && mem v (node_ids t) && Z.eqb (eG x) (order_in A u v) && Z.eqb (eH x) (order_in B u v)) (gedges t)
+  && forallb (fun e => let '(u, v, o) := e in Z.eqb o (order_in B u v) || has_adj t u v) (gedges A)
+  && forallb (fun e => let '(u, v, o) := e in Z.eqb o (order_in A u v) || has_adj t u v) (gedges B)
+  && forallb (fun p => match label B (fst p) with
+                       | Some y => same3 (snd p) y || mem (fst p) (node_ids t) | None => true end) (gnodes A).
+
 (** ** h_to_implicit on a substrate graph *)
 Definition is_H_h (g : hostg) (n : N) : bool :=
   match label g n with Some a => N.eqb (a_el a) EL_H | None => false end.
@@ -212,6 +233,7 @@ Definition run_c04 (core invert guard : bool) (G H : hostg) (remaps : option (li
       let base := match remaps with None => host | Some _ => h_to_explicit host (map snd m) end in
       let pat2 := match remaps with None => pat | Some _ => l end in
       let fin := map (fun xg => finish modeE (snd xg)) glued in
+      let other := h_to_implicit_host sB in
       L [head;
          L [trc modeE rc; tmolg l; tmolg r]; tbool flag; tmolg pat; thostg host;
          tbool (match_okb host pat m && negb guard && same_set (map fst m) (node_ids pat));
@@ -232,5 +254,9 @@ Definition run_c04 (core invert guard : bool) (G H : hostg) (remaps : option (li
                 | None => existsb (fun f => match f with Some f' => regen_folded f' sA sB | None => false end)
                                   (its_list core invert G H [identity core invert G H])
                 | Some _ => false end);
-         tbool (wf_rcb rc && wf_hostb host)]
+         tbool (wf_rcb rc && wf_hostb host);
+         (* translation validation of the rule preparation (both modes): premises and conclusion of C04_identity_glue_any_rule *)
+         tbool (pair_wfb host other); tbool (describesb host other rc);
+         tlist (fun xg : mapping * option its => match snd xg with Some g => tbool (regen_exact g host other) | None => L [] end)
+               (match remaps with None => glued | Some _ => [] end)]
   end.
